@@ -10,7 +10,7 @@ use serde_json::{json, Value};
 pub static DEF: PropDef = PropDef {
     id: "C10",
     level: "exploration",
-    rule: "cases: operation sequences of 0..4000 operations mixing fixed-width values (1..16 bits, v < 2^bits), \
+    rule: "cases: operation sequences of 0..4000 operations (1 %: with a default run of 2^8..2^20 operations in front) mixing fixed-width values (1..16 bits, v < 2^bits), \
 misprediction flags in the 7 contexts (biased to false so that default runs form) and correction values in the 10 \
 contexts with bit length uniform in 0..31 (v < 2^31); enumerated: every single-operation sequence (all 131070 values, \
 all corrections v < 2^17 in each context, all 14 flags) and every pair from a 40-element representative set. \
@@ -43,8 +43,52 @@ fn op_from_json(v: &Value) -> Option<CodecOp> {
     }
 }
 
+/// ops as JSON; runs of a repeating period (1 or 2 identical operations) are stored as ["R", count, [ops...]]
 fn ops_doc(ops: &[CodecOp]) -> Value {
-    json!({"kind":"c10","ops": ops.iter().map(op_json).collect::<Vec<_>>()})
+    let mut out: Vec<Value> = Vec::new();
+    let mut i = 0;
+    while i < ops.len() {
+        let mut done = false;
+        for period in [1usize, 2] {
+            if i + period * 8 <= ops.len() {
+                let mut reps = 1;
+                while i + (reps + 1) * period <= ops.len()
+                    && (0..period).all(|k| ops[i + reps * period + k] == ops[i + k])
+                {
+                    reps += 1;
+                }
+                if reps >= 8 {
+                    out.push(json!(["R", reps, ops[i..i + period].iter().map(op_json).collect::<Vec<_>>()]));
+                    i += reps * period;
+                    done = true;
+                    break;
+                }
+            }
+        }
+        if !done {
+            out.push(op_json(&ops[i]));
+            i += 1;
+        }
+    }
+    json!({"kind":"c10","ops": out})
+}
+
+fn ops_from_doc(doc: &Value) -> Option<Vec<CodecOp>> {
+    let a = doc.get("ops")?.as_array()?;
+    let mut ops = vec![];
+    for v in a {
+        let arr = v.as_array()?;
+        if arr.first()?.as_str()? == "R" {
+            let reps = arr[1].as_u64()? as usize;
+            let unit: Vec<CodecOp> = arr[2].as_array()?.iter().filter_map(op_from_json).collect();
+            for _ in 0..reps {
+                ops.extend_from_slice(&unit);
+            }
+        } else {
+            ops.push(op_from_json(v)?);
+        }
+    }
+    Some(ops)
 }
 
 fn ops_hash(ops: &[CodecOp]) -> u64 {
@@ -129,11 +173,28 @@ fn gen_ops(dna: &mut Dna) -> Vec<CodecOp> {
     let nruns = dna.range(1, 6);
     let mut ops = vec![];
     for _ in 0..nruns {
-        let n = match dna.weighted(&[30, 40, 25, 5]) {
+        let n = match dna.weighted(&[30, 40, 24, 5, 1]) {
             0 => dna.range(0, 6),
             1 => dna.range(6, 100),
             2 => dna.range(100, 800),
-            _ => dna.range(800, 4000),
+            3 => dna.range(800, 4000),
+            _ => {
+                // a very long run of defaults (perfectly predicted real streams produce runs of
+                // 10^5..10^6 default operations), length near a power of two, then go on
+                let k = dna.range(8, 18);
+                let len = ((1usize << k) as i64 + dna.range(0, 4) as i64 - 2).max(1) as usize;
+                let ctxm = dna.below(MISPREDICTION_CONTEXTS as usize) as u8;
+                let ctxc = dna.below(CORRECTION_CONTEXTS as usize) as u8;
+                let mixed = dna.bool();
+                for i in 0..len {
+                    if mixed && i % 2 == 1 {
+                        ops.push(CodecOp::Correction(ctxc, 0));
+                    } else {
+                        ops.push(CodecOp::Misprediction(ctxm, false));
+                    }
+                }
+                dna.range(0, 6)
+            }
         };
         let false_pct = [0u32, 50, 90, 99, 100][dna.below(5)];
         let zero_pct = [0u32, 50, 90, 99][dna.below(4)];
@@ -141,7 +202,7 @@ fn gen_ops(dna: &mut Dna) -> Vec<CodecOp> {
         let mut m = Mix::new(dna.u64());
         for _ in 0..n {
             ops.push(gen_op(&mut m, false_pct, zero_pct, wv, wm));
-            if ops.len() >= 4000 {
+            if ops.len() >= 4000 && ops.len() < 5000 {
                 return ops;
             }
         }
@@ -236,8 +297,8 @@ fn exh(ctx: &mut Ctx, sub: &str, start: u64, count: u64) {
 
 fn worker(ctx: &mut Ctx) {
     let cases = match ctx.cfg.tier {
-        Tier::Quick => 300_000u64,
-        Tier::Thorough => 6_000_000u64,
+        Tier::Quick => 200_000u64,
+        Tier::Thorough => 3_000_000u64,
     };
     for sub in ["values", "corrections", "flags", "pairs"] {
         let total = exh_size(sub);
@@ -254,7 +315,7 @@ fn worker(ctx: &mut Ctx) {
     };
     if let Some((f, doc)) = run_dna(ctx, &run, eval_dna) {
         // concrete minimisation: drop operations while the same failure persists
-        let mut ops: Vec<CodecOp> = doc["ops"].as_array().map(|a| a.iter().filter_map(op_from_json).collect()).unwrap_or_default();
+        let mut ops: Vec<CodecOp> = ops_from_doc(&doc).unwrap_or_default();
         let was = ctx.counting;
         ctx.counting = false;
         let mut chunk = (ops.len() / 2).max(1);
@@ -288,10 +349,7 @@ fn worker(ctx: &mut Ctx) {
 }
 
 fn replay(doc: &Value, ctx: &mut Ctx) -> Result<(), Failure> {
-    let ops: Vec<CodecOp> = doc
-        .get("ops")
-        .and_then(|a| a.as_array())
-        .map(|a| a.iter().filter_map(op_from_json).collect())
+    let ops: Vec<CodecOp> = ops_from_doc(doc)
         .ok_or_else(|| Failure::new("C10", "harness", "bad-replay-doc", "no ops".into()))?;
     let _ = err_info;
     check(&ops, ctx)
